@@ -8,6 +8,7 @@ import JunoModel.C01.ProofsLegacyDel
 import JunoModel.C01.ProofsAbs
 import JunoModel.C01.ProofsMisc
 import JunoModel.C01.ProofsAgree
+import JunoModel.C01.ProofsLegacyRestart
 /-!
 C01 — property theorems (statements only; helper lemmas are in `Proofs*.lean`).
 Every theorem in this module is an obligation listed in evidence/C01.json with its axioms.
@@ -303,6 +304,13 @@ set_option maxRecDepth 8000 in
 example : (State.runStored true [(true, State.deploy7), (false, State.nonce7)] (State.St.empty, .felt 0)).isSome = true := by
   decide
 
+/-! ## Not covered by a theorem
+
+* Dropped updates (`Simulate`, a batch closed without `Write`, a failed root check) leave no trace: in the
+  functional models that is true by construction (`ProofsMisc.lean`), so it is NOT claimed here; the real
+  code is checked by the harness (database dump before / after, five modes, both backends).
+* Process restarts of the state layer (the state model keeps resolved trees across blocks): harness only. * The database half of trie2's commit / reopen: correspondence of the committed node sets. -/
+
 /-! ## The legacy trie (`core/trie`)
 
 `Legacy.put / Legacy.hash` transcribe the flat, path-keyed trie: `Put` (updateLeaf, handleEmptyTrie,
@@ -323,6 +331,19 @@ theorem legacy_canonical (k : HashKind) (n : Nat) (ops : List Op) (hv : ValidOps
 theorem backends_agree (k : HashKind) (n : Nat) (ops : List Op) (hv : ValidOps n ops) :
     Legacy.runOps n k ops = some (Trie2.hashRoot k (Trie2.run k ops)).1 := by
   rw [legacy_canonical k n ops hv, (trie2_canonical k n ops hv).2.2]
+
+/-- **The legacy trie across restarts.** `Legacy.runL`: writes, `Hash()` calls and restarts in any interleaving,
+a restart being `Hash()` (production code always commits a trie before its transaction ends; `Hash()` is
+what persists the root key) followed by a new trie object on the same storage (`Legacy.reopen`: the in-memory
+dirty list is gone). The root is the commitment of the final map, so restarts change nothing. The byte
+encoding of the stored nodes is not modelled (the store is a map); tied by the `lreopen` correspondence. -/
+theorem legacy_restart_canonical (k : HashKind) (n : Nat) (ops : List LOp) (hv : TrieL.ValidLOps n ops) :
+    Legacy.runL n k ops = some (Spec.root k n (labsRun ops)) :=
+  Legacy.runL_all k n ops hv
+
+example : Legacy.runL 2 .pedersen [.put [true, false] (.felt 3), .reopen, .put [true, true] (.felt 4), .reopen,
+    .put [true, false] (.felt 9), .put [true, true] (.felt 0)] = some (.add (.h .pedersen (.felt 9) (.felt 2)) 2) := by
+  decide
 
 /-- non-vacuity: insert, hash, overwrite, delete collapsing a binary node, delete to empty -/
 example : Legacy.runOps 2 .pedersen [.put [true, false] (.felt 3), .hash, .put [true, true] (.felt 4),
